@@ -1,0 +1,44 @@
+// This Source Code Form is subject to the terms of the Mozilla Public
+// License, v. 2.0. If a copy of the MPL was not distributed with this
+// file, You can obtain one at http://mozilla.org/MPL/2.0/.
+
+//go:build verif
+
+// Package verif re-exports internal building blocks of the controller runtime (reconcile queue,
+// resource cache, dependency database) for white-box verification harnesses. It is compiled only
+// with the build tag "verif" and contains no logic of its own.
+package verif
+
+import (
+	"github.com/cosi-project/runtime/pkg/controller/runtime/internal/cache"
+	"github.com/cosi-project/runtime/pkg/controller/runtime/internal/dependency"
+	"github.com/cosi-project/runtime/pkg/controller/runtime/internal/qruntime"
+	"github.com/cosi-project/runtime/pkg/controller/runtime/options"
+)
+
+// Queue is the per-controller reconcile queue.
+type Queue[K comparable, V any] = qruntime.VerifQueue[K, V]
+
+// QueueItem is an item handed out by Queue.
+type QueueItem[K comparable, V any] = qruntime.VerifQueueItem[K, V]
+
+// NewQueue creates a reconcile queue.
+func NewQueue[K comparable, V any]() *Queue[K, V] {
+	return qruntime.NewVerifQueue[K, V]()
+}
+
+// ResourceCache is the runtime read cache.
+type ResourceCache = cache.ResourceCache
+
+// NewResourceCache creates a runtime read cache.
+func NewResourceCache(resources []options.CachedResource) *ResourceCache {
+	return cache.NewResourceCache(resources)
+}
+
+// Database is the controller dependency database.
+type Database = dependency.Database
+
+// NewDatabase creates a dependency database.
+func NewDatabase() (*Database, error) {
+	return dependency.NewDatabase()
+}
